@@ -129,29 +129,6 @@ def exitLive (s : St) (h : Nat) (err : Bool) : St × String :=
   | none => (s, "none")
   | some (_, x, arg, start) => (complete { s with live := s.live.filter (·.1 != h) } x arg start err, "done")
 
-/-- fields that do not influence a rule's decisions: a hotspot concurrency rule never looks at `BurstCount` /
-    `MaxQueueingTimeMs`, although `Equals` compares them — a rule modified only there must behave as if unchanged,
-    through the stat-reuse path ("a modified rule whose statistic parameters are unchanged keeps its statistics") -/
-def hotNeutral (r : HotRule) : HotRule := if r.mtype = 0 then { r with burst := 0, maxQ := 0 } else r
-
-/-- The classifier of `reuse-steals-controller`, following the real builder step by step (it is `noStealS K` when
-    `canon = id`): whenever a rule takes the statistic of an old controller, that controller must not be wanted by a
-    later rule, and if the rule has a controller of its own (an old one equal to it up to `canon`: constructor
-    normalisation, decision-neutral fields) it must be exactly that one. -/
-def stealSim {R S} (K : Calc R S) (canon : R → R) : List R → List (Ctl R S) → Bool
-  | [], _ => true
-  | r :: rs, old =>
-    let eq' (o n : R) : Bool := K.eq o n || K.eq (canon o) (canon n)
-    match reuseIdx K r old 0 none with
-    | (some i, _) => stealSim K canon rs (old.eraseIdx i)
-    | (none, some j) =>
-      match old[j]? with
-      | some c =>
-        let own := old.findIdx? fun c' => eq' c'.rule r
-        (own.isNone || own == some j) && (rs.all fun r' => !eq' c.rule r') && stealSim K canon rs (old.eraseIdx j)
-      | none => stealSim K canon rs old
-    | (none, none) => stealSim K canon rs old
-
 /-- oracle bookkeeping for one reload of a module: per resource, was the list left unchanged (never-refusing rules and
     decision-neutral fields aside), and is a controller stolen -/
 def judgeReload {R S} [DecidableEq R] (K : Calc R S) (valid : R → Bool) (res : R → Nat) (inert : R → Bool)
@@ -207,8 +184,8 @@ def doLoad (oracle : Bool) (s : St) (modl : String) (re : Bool) (only : Option N
     | some rules =>
       if !rules.all hotSupported then (s, some "bad-op") else
       let (fl, raw) := if oracle then
-          (if re then judgeReload hotCalc HotRule.valid (·.res) hotInert false hotNeutral s.hot s.hotRaw rules only s.flags
-           else (s.flags, (judgeReload hotCalc HotRule.valid (·.res) hotInert false hotNeutral s.hot s.hotRaw rules only s.flags).2))
+          (if re then judgeReload hotCalc HotRule.valid (·.res) hotInert false HotRule.neutral s.hot s.hotRaw rules only s.flags
+           else (s.flags, (judgeReload hotCalc HotRule.valid (·.res) hotInert false HotRule.neutral s.hot s.hotRaw rules only s.flags).2))
         else (s.flags, s.hotRaw)
       let m := match only with
         | none => s.hot.loadRules hotCalc HotRule.valid (·.res) s.now rules
